@@ -557,8 +557,8 @@ func PropC12(c *vs.Case, f Factory, kind string, fixed bool) error {
 	if got.Final != base.Final {
 		return withTrace(vs.Violf("C12/no-convergence-after-fault", "after fault %+v (further faults %v) and the recovery syncs the cluster differs from the fault-free run\n%s", fault, extra, diffWindow(base.Final, got.Final)), t)
 	}
-	if len(env.CacheViolations) > 0 {
-		return vs.Violf("C17/cache-mutated", "shared cache objects changed during a sync: %v", env.CacheViolations)
+	if v := env.SharedStateViolation(); v != nil {
+		return v
 	}
 	return nil
 }
